@@ -90,7 +90,7 @@ def run(ctx):
     # exhaustive small scope, sampled configurations per curve
     nmax = 4 if quick else 5
     for pts in gen.exhaustive_small(nmax):
-        for which in WHICH[:4]:
+        for which in WHICH:
             if rng.random() < (0.5 if quick else 1.0):
                 one(ctx, which, pts, rand_cfg(ctx, which, pts), 'exhaustive-small')
     N = 2000 if quick else 30000
